@@ -216,6 +216,7 @@ func (c *wsConn) enqueue(f func()) {
 func (c *wsConn) Send(data []byte) {
 	if c.ws != nil {
 		c.Tracef("<<- %s", data)
+		verifNote("frame", "cid", c.cid)
 		c.ws.WriteMessage(websocket.TextMessage, data)
 	}
 }
@@ -223,6 +224,7 @@ func (c *wsConn) Send(data []byte) {
 func (c *wsConn) Reply(data []byte) {
 	if c.ws != nil {
 		c.Tracef("<-- %s", data)
+		verifNote("frame", "cid", c.cid)
 		c.ws.WriteMessage(websocket.TextMessage, data)
 	}
 }
